@@ -65,8 +65,11 @@ ASSUMPTIONS = [
     "the token emulator stands in for a PKCS#11 device",
     "histories are explored to depth 3 (quick: sampled at depth 3; thorough: depth 4 sampled) — the unbounded statement is the Lean theorem C10_timeline",
     "the byte-for-byte comparison of a re-used output path with a fresh one relies on RSA PKCS#1 v1.5 signatures being deterministic and on set iteration order being stable within one process",
+    "the byte-for-byte comparison with the model writer's text lists the members of sets (signatures of a bundle, keys of equal tag, algorithms of a policy) in the order the written file shows: the iteration order of a Python set is not part of the property",
+    "'the honest successor must be accepted' is demanded only in the quarterly routine (schema 'normal' after nothing but 'normal'); elsewhere the expected verdict is the model's",
+    "header variation 'other-domain' widens request_policy.acceptable_domains for that one ceremony; an SKR accepted under it is judged but not used as a state of the tree",
 ]
-TRUSTED = ["harness/p11emu.py token emulator", "harness/ceremony_run.py entry-point driver and independent SKR judge (ElementTree, dnspython)"]
+TRUSTED = ["harness/p11emu.py token emulator (CKA_LABEL as a Python str, as PyKCS11 hands it over: UTF-8 on the wire)", "harness/ceremony_run.py entry-point driver and independent SKR judge (ElementTree, dnspython)", "lean/Kskm/SkrXml.lean (C11's writer model, driver kskm_driver_pkge) for the byte-for-byte comparison of written files"]
 
 VARIANTS = ["honest", "replayed", "gapped", "re-keyed", "wrong-first-keys", "late", "gap-declared-negative-min", "re-keyed-same-ids", "honest-stale-config-prev", "replayed-stale-config-prev"]
 T0 = datetime(2024, 1, 1, tzinfo=timezone.utc)
@@ -513,7 +516,7 @@ def run(tier: str, driver_ok: bool) -> Result:
     try:
         explore(res, r, runs, work, schemas, tier, text=None, budget=340 if quick else 2600, depth_max=3 if quick else 4, full=True)
         for text in R.TEXT_PROFILES.values():
-            explore(res, lib.rng("C10:" + text.name), runs, work, schemas, tier, text=text, budget=32 if quick else 160, depth_max=3, full=False)
+            explore(res, lib.rng("C10:" + text.name), runs, work, schemas, tier, text=text, budget=32 if quick else 100, depth_max=3, full=False)
         policy_change_stream(res, runs, work, schemas, tier)
         if driver_ok:
             with_line = [x for x in runs if "line" in x]
